@@ -160,7 +160,7 @@ PROPS["C01"] = dict(
           "ciphers with the ephemeral key served by a scripted random source). For each case every call form is executed (combined, detached, clen_p==NULL, precomputed-key, easy, NaCl zero-padded, "
           "afternm(beforenm)) and compared byte for byte with the reference model (ciphertext, tag, reported lengths) and with each other; every output is decrypted by every matching form and must return "
           "the message and its length. Enumerated: every message length 0..320 plus 400 sampled lengths up to 2200 (thorough: every length 0..2200) with ad length from {0,1,15,16,17,31,32,33,random<300}; "
-          "every ad length 0..320 with mlen in {0,1,random}; large messages up to 256 KiB (thorough 8 MiB). CPU masks per construction: ChaCha {AVX2, SSSE3, ref} x Poly1305 {SSE2, donna}, "
+          "every ad length 0..320 plus 275 sampled / boundary ad lengths up to 2200 (thorough: every ad length 0..2200) with mlen in {0,1,random}; large messages up to 256 KiB (thorough 8 MiB). CPU masks per construction: ChaCha {AVX2, SSSE3, ref} x Poly1305 {SSE2, donna}, "
           "Salsa20 {AVX2, asm/SSE2, ref}, AEGIS {AES-NI, soft}, X25519 {sandy2x, ref10}; AES-256-GCM skipped (counted) where unavailable. Oracle: ref/constructions.hpp, aes256gcm.hpp, aegis.hpp "
           "(validated against RFC 8439, draft-xchacha, NaCl, NIST/Wycheproof/OpenSSL GCM and AEGIS draft vectors). Non-trivial = mlen+adlen>0 and (crosses a 16/32/64/112/224/256/512-byte boundary or non-default backend); "
           "distinct = (build, construction, mlen, adlen, mask, content class)."),
